@@ -528,6 +528,8 @@ func c14Type(i int) arvados.InstanceType { return test.InstanceType(i) }
 // is counted by NumGoroutine only while it runs a finalizer.)
 var c14Base = 1 << 30
 
+var c14MissWaits int
+
 func c14Settle(base int) bool {
 	deadline := time.Now().Add(20 * time.Second)
 	for i := 0; ; i++ {
@@ -794,9 +796,11 @@ func c14RunScenario(run *verifkit.Run, ctx context.Context, sc c14Scenario, case
 					continue
 				}
 				p.evals++
-				if !p.stepKills[u] {
+				if !p.stepKills[u] && c14MissWaits < 20 {
 					// safety net, never expected to be needed once the
-					// goroutines of the step have ended
+					// goroutines of the step have ended (capped, so that a
+					// tree that really omits the kill is not slowed down)
+					c14MissWaits++
 					p.mu.Unlock()
 					for i := 0; i < 50; i++ {
 						time.Sleep(time.Millisecond)
